@@ -84,14 +84,26 @@ def queryAmbiguous (syms : SymbolTable) (facts : List (List Nat × Fact)) (kind 
     (rs.any fun x => match x with | .ok (some _) => true | _ => false) &&
       (rs.any fun x => match x with | .error _ => true | _ => false)
 
+def errKinds (rs : List (Except ExprErr α)) : List String :=
+  (rs.filterMap fun x => match x with | .error e => some (exprErrOut e) | _ => none).eraseDups
+
+/-- several bindings of one query fail with different errors: which one is reported is order-dependent -/
+def queryKindAmbiguous (syms : SymbolTable) (facts : List (List Nat × Fact))
+    (trusted : List Nat) (r : Rule) : Bool :=
+  let rs := (combine (visible trusted facts) r.body (MV.new (bodyVars r.body))).map
+    fun ob => evalExprs r.exprs ob.2 (TempSyms.new syms)
+  (errKinds rs).length > 1
+
 def caseAmbiguous (syms : SymbolTable) (facts : List (List Nat × Fact)) (blocks : List Block) (az : AuthorizerData) : Bool :=
   let km := keyMap blocks
   let azT := authorizerTrusted az km
   let chk (dflt : List Nat) (blk : Nat) (c : Check) : Bool :=
     c.queries.any fun q => queryAmbiguous syms facts c.kind (trustedFromScopes q.scopes dflt blk km) blk q.rule
+      || queryKindAmbiguous syms facts (trustedFromScopes q.scopes dflt blk km) q.rule
   az.checks.any (chk azT authorizerId) ||
   (az.policies.any fun p => p.queries.any fun q =>
-    queryAmbiguous syms facts .one (trustedFromScopes q.scopes azT authorizerId km) authorizerId q.rule) ||
+    queryAmbiguous syms facts .one (trustedFromScopes q.scopes azT authorizerId km) authorizerId q.rule
+      || queryKindAmbiguous syms facts (trustedFromScopes q.scopes azT authorizerId km) q.rule) ||
   ((enumFrom 0 blocks).any fun ib =>
     ib.2.checks.any (chk (trustedFromScopes ib.2.scopes defaultTrusted ib.1 km) ib.1))
 
@@ -131,7 +143,10 @@ def runAuthz (j : Json) : P Json := do
       | .error _ => Json.mkObj [("r", "exec")]
   let extra : List (String × Json) := [("iterations", out.iterations), ("fact_count", out.facts.length), ("queries", Json.arr qs.toArray)]
   match out.result with
-  | .error e => pure (Json.mkObj ([("r", Json.str (runErrOut e))] ++ extra))
+  | .error e =>
+    -- which of several failing rule applications is reported depends on the iteration order
+    let kinds := errKinds (stepResults syms (worldRules blocksI azI) out.facts)
+    pure (Json.mkObj ([("r", Json.str (runErrOut e))] ++ extra ++ (if kinds.length > 1 then [("amb", Json.bool true)] else [])))
   | .ok () =>
     let amb := caseAmbiguous syms out.facts blocksI azI
     let res := decide syms out.facts blocksI azI
@@ -162,6 +177,7 @@ def handle (line : String) : String :=
       | "engine" => runEngine j
       | "authz" => runAuthz j
       | "atten" => runAtten j
+      | "determ" => runAuthz j
       | _ => throw s!"unknown op {op}"
     match r with
     | .ok o => o.compress
